@@ -64,6 +64,9 @@ def compare(runs):
     dis = []
     for i, (r, rep) in enumerate(zip(runs, replies)):
         obs = r["obs"]
+        if r["case"].get("unobservable"):
+            dis.append((i, f"the harness can no longer observe {r['case']['unobservable']} (input of the model)"))
+            continue
         if "rows" not in rep:
             dis.append((i, f"driver: {json.dumps(rep)[:200]}"))
             continue
